@@ -159,6 +159,30 @@ class SymArr:
     def __getitem__(self, idx):
         return SymArr(self.dtype, real_np.asarray(self.e[idx], dtype=object))
 
+    # shape-only operations act on the object array of terms
+    def reshape(self, *shape, **kw):
+        shp = shape[0] if len(shape) == 1 and not isinstance(shape[0], (int, real_np.integer)) else shape
+        return SymArr(self.dtype, self.e.reshape(shp))
+
+    def ravel(self, *a, **k):
+        return SymArr(self.dtype, self.e.ravel())
+
+    flatten = ravel
+
+    def squeeze(self, axis=None):
+        return SymArr(self.dtype, real_np.squeeze(self.e, axis=axis))
+
+    def transpose(self, *axes):
+        return SymArr(self.dtype, self.e.transpose(*axes))
+
+    T = property(lambda s: SymArr(s.dtype, s.e.T))
+
+    def copy(self, *a, **k):
+        return SymArr(self.dtype, self.e.copy())
+
+    def view(self, *a, **k):
+        raise TypeError("view() of a symbolic array")
+
 
 def _real(v, dt):
     k = kind(dt)
@@ -205,6 +229,48 @@ class FakeNP:
     @staticmethod
     def abs(x):
         return x
+
+    # shape-only numpy functions over SymArr
+    @staticmethod
+    def squeeze(x, axis=None):
+        return x.squeeze(axis) if isinstance(x, SymArr) else real_np.squeeze(x, axis=axis)
+
+    @staticmethod
+    def reshape(x, shape, *a, **k):
+        return x.reshape(shape) if isinstance(x, SymArr) else real_np.reshape(x, shape)
+
+    @staticmethod
+    def ravel(x, *a, **k):
+        return x.ravel() if isinstance(x, SymArr) else real_np.ravel(x)
+
+    @staticmethod
+    def expand_dims(x, axis):
+        return SymArr(x.dtype, real_np.expand_dims(x.e, axis)) if isinstance(x, SymArr) else real_np.expand_dims(x, axis)
+
+    @staticmethod
+    def atleast_1d(x):
+        return SymArr(x.dtype, real_np.atleast_1d(x.e)) if isinstance(x, SymArr) else real_np.atleast_1d(x)
+
+    @staticmethod
+    def broadcast_to(x, shape):
+        return SymArr(x.dtype, real_np.broadcast_to(x.e, shape)) if isinstance(x, SymArr) else real_np.broadcast_to(x, shape)
+
+    @staticmethod
+    def broadcast_arrays(*xs):
+        shp = real_np.broadcast_shapes(*[x.shape for x in xs])
+        return [FakeNP.broadcast_to(x, shp) for x in xs]
+
+    @staticmethod
+    def shape(x):
+        return x.shape
+
+    @staticmethod
+    def ndim(x):
+        return x.ndim
+
+    @staticmethod
+    def size(x):
+        return x.size
 
     def allclose(self, a, b, rtol=None, atol=None, equal_nan=False):
         if a.shape != b.shape:
